@@ -26,6 +26,12 @@ type wsPipe struct {
 	all         []wsFrame
 	openWriters int
 	overlap     bool // a second Writer was requested before the previous one was closed
+	// undrained counts messages whose reader was abandoned before it returned io.EOF. coder/nhooyr:
+	// "Ensure you read to EOF otherwise the connection will hang" - with a message sent as several
+	// frames (which is what Writer()+Close() of these back-ends produces) the next Reader() fails with
+	// "previous message not read to completion". gorilla discards the rest silently.
+	undrained int
+	lastRd    *frameReader
 }
 
 type memConn struct {
@@ -51,9 +57,11 @@ func (c *memConn) Reader(ctx context.Context) (websocket.MessageType, io.Reader,
 	if len(c.in.q) == 0 {
 		return 0, nil, errNoFrame
 	}
+	c.in.checkDrained()
 	f := c.in.q[0]
 	c.in.q = c.in.q[1:]
-	return f.typ, &frameReader{data: f.data, mode: c.rdMode}, nil
+	c.in.lastRd = &frameReader{data: f.data, mode: c.rdMode}
+	return f.typ, c.in.lastRd, nil
 }
 
 func (c *memConn) Writer(ctx context.Context, typ websocket.MessageType) (io.WriteCloser, error) {
@@ -64,6 +72,14 @@ func (c *memConn) Writer(ctx context.Context, typ websocket.MessageType) (io.Wri
 	}
 	c.out.openWriters++
 	return &frameWriter{p: c.out, typ: typ}, nil
+}
+
+// checkDrained (p.mu held) accounts for the previous message reader.
+func (p *wsPipe) checkDrained() {
+	if p.lastRd != nil && !p.lastRd.eof {
+		p.undrained++
+	}
+	p.lastRd = nil
 }
 
 type frameWriter struct {
@@ -101,11 +117,13 @@ type frameReader struct {
 	data  []byte
 	mode  int
 	calls int
+	eof   bool // io.EOF has been returned to the caller
 }
 
 func (r *frameReader) Read(p []byte) (int, error) {
 	r.calls++
 	if len(r.data) == 0 {
+		r.eof = true
 		return 0, io.EOF
 	}
 	max := len(p)
@@ -127,6 +145,7 @@ func (r *frameReader) Read(p []byte) (int, error) {
 	n := copy(p[:max], r.data)
 	r.data = r.data[n:]
 	if r.mode == 1 && len(r.data) == 0 {
+		r.eof = true
 		return n, io.EOF
 	}
 	return n, nil
@@ -244,6 +263,13 @@ func runWS(c Case) []V {
 		}
 		if d.pipe.overlap {
 			vs.add("writer-contract:"+where, "%s: a second frame writer was opened before the previous one was closed", d.name)
+		}
+		d.pipe.mu.Lock()
+		d.pipe.checkDrained()
+		un := d.pipe.undrained
+		d.pipe.mu.Unlock()
+		if un > 0 {
+			vs.add("conn-reader-not-drained:ws/"+c.Cfg.Mode, "%s: Transport.Read returned for %d of %d messages without reading the websocket message reader to io.EOF (coder/nhooyr contract: \"read to EOF otherwise the connection will hang\"; with a message sent in several frames their next Reader() fails with \"previous message not read to completion\")", d.name, un, len(d.pipe.all))
 		}
 	}
 	// independent decoding of everything that was framed (also when the peer failed: the wire is judged on its own)
